@@ -17,7 +17,8 @@ RULE = ('every tree shape with <= E entries (files / empty dirs, up to isomorphi
         'substitution of each leaf by special kinds and adversarial names; x root spellings (omitted, ., ./, '
         'relative, trailing slash, sub/.., absolute, symlinked ancestor, several disjoint roots with own options) '
         'x every mindepth/maxdepth in {absent,0..D+2} x {default,bfs,dfs}; every readdir permutation of directories with <= 4 entries; one 3300-entry-wide and one 64-level-deep tree; a case is non-trivial when the '
-        'expected row set is neither empty nor the whole tree, or when the ordering law has >= 2 levels to order')
+        'expected row set is neither empty nor the whole tree, or when the ordering law has >= 2 levels to order'
+        '; roots whose bare names spell 19 words of the query language, alone and at every place of a root list')
 MC_NOTE = ('state = one closed configuration (tree, roots, window, mode, readdir order); transitions = '
            'directory-entry events compared with the walk model; every model trace is compared with the real binary')
 ASSUMPTIONS = ['ext4/tmpfs scratch directory; names that are not valid UTF-8 are compared as multisets of their lossy text',
